@@ -270,6 +270,20 @@ def run_items(case, R, items, built, extra_tags):
                                 R.fail("lead_coefficient", "wrong-value", f"{lab} graded={graded} reverse={reverse}: {got.tolist()} != {want_c.tolist()}"[:400], tags=tg)
                         except Exception as err:  # noqa: BLE001
                             R.fail("lead_coefficient", "exception", f"{lab}: {type(err).__name__}: {err}", tags=tg)
+                    if via == "args" and not graded and not reverse:
+                        # the flags left at their defaults (graded=False, reverse=False)
+                        R.tr()
+                        try:
+                            for fname_, want_ in (("lead_exponent", want_e), ("lead_coefficient", want_c)):
+                                g_ = numpy.asarray(getattr(numpoly, fname_)(p))
+                                if g_.shape != want_.shape or not numpy.array_equal(g_.astype(complex) if fname_ == "lead_coefficient" else g_, want_):
+                                    R.fail(fname_, "wrong-value", f"{lab} with default flags: {g_.tolist()} != {want_.tolist()}"[:400], tags=tg + ["defaults"])
+                            pd_ = numpy.asarray(numpoly.sortable_proxy(p)).ravel().tolist()
+                            pe_ = numpy.asarray(numpoly.sortable_proxy(p, graded=False, reverse=False)).ravel().tolist()
+                            if pd_ != pe_:
+                                R.fail("sortable_proxy", "wrong-value", f"{lab}: sortable_proxy(p) = {pd_} but with graded=False, reverse=False given {pe_}", tags=tg + ["defaults"])
+                        except Exception as err:  # noqa: BLE001
+                            R.fail("lead_exponent", "exception", f"{lab} with default flags: {type(err).__name__}: {err}", tags=tg + ["defaults"])
                     keys = [prekey(el, names, graded, reverse) for el in flat]
                     if via == "args":
                         R.tr()
